@@ -418,6 +418,8 @@ class Engine:
         self.inlined_seen = set()
         self.auto_inlined = set()
         self.contracted = ()
+        self.not_discharged = set()
+        self.slow_budget_s = 900.0        # per unit: total time for solver calls beyond the 3 s attempt
         self.summaries_used = set()
         self.notes = []
         self.rechecked = {}
@@ -563,11 +565,18 @@ class Engine:
             if ok:
                 self.cert_used = getattr(self, 'cert_used', 0) + 1
                 r, backend = z3.unsat, 'linear-combination-certificate(z3-checked identity)'
-            else:
+            elif name not in self.not_discharged and self.slow_budget_s > 0:
                 s.set('timeout', self.SOLVER_TIMEOUT_MS)
+                t1 = time.time()
                 r = s.check()
-        if r == z3.unknown and self.canary_expect is None:
+                self.slow_budget_s -= time.time() - t1
+        if r == z3.unknown and self.canary_expect is None and name not in self.not_discharged and self.slow_budget_s > 0:
+            # (an obligation name that already has a refuted / undecided instance in this unit is not discharged whatever
+            # its other instances do: they get the quick attempt only; the same once the unit has used up its budget for
+            # long solver calls -- what stays `unknown` is reported as undecided, never as a violation)
+            t1 = time.time()
             r, backend = self.second_opinion(s, f)
+            self.slow_budget_s -= time.time() - t1
         if r == z3.unsat and self.canary_expect is None and os.environ.get('VERIF_TIER_EFFECTIVE') == 'thorough':
             # thorough tier: every discharged obligation is re-checked by an independent solver (cvc5 binary)
             rr = self.recheck_cvc5(s)
@@ -601,6 +610,8 @@ class Engine:
         if status != 'unsat':
             ob.smt2 = s.to_smt2()
         self.obligations.append(ob)
+        if not ob.ok:
+            self.not_discharged.add(name)
         if self.canary_expect is not None and not ob.ok and \
                 any(name.startswith(e) for e in self.canary_expect):
             raise StopRun()
@@ -2699,7 +2710,7 @@ class Engine:
         if node is None:
             return False
         for x in ast.walk(node):
-            if isinstance(x, (ast.While, ast.Yield, ast.YieldFrom)):
+            if isinstance(x, ast.While):
                 return False
         # loops and comprehensions are allowed: over concrete sequences they are simply executed, over symbolic ones the
         # engine stops with "no loop specification" exactly as it would for a function listed for inlining
